@@ -109,6 +109,10 @@ class OrderManager:
             raise errors.Error("Order not found")
         if not order.is_open:
             raise errors.Error("Order {} is in {} state and can't be canceled".format(order_id, order.state))
+        if order.auto_repay and order.amount_filled:
+            # Closing this order will try to repay open loans, which requires calculating the outstanding interest of
+            # every open loan. If that is going to fail, fail now and leave the order as it is.
+            self._ctx.loan_mgr.get_loans(is_open=True)
         order.cancel()
         self._order_closed(order)
         self._push_order_update(order)
